@@ -135,6 +135,40 @@ func checkEnvelope(kind string, v interface{}) (fails [][2]string, enc []byte, f
 			fail("transport-roundtrip:"+d, fmt.Sprintf("envelope received through the transport differs from the original at %s", d))
 		}
 	}
+	// (iii) real WebSocket transport: Send writes one text frame whose payload the typed decoder and
+	// the WebSocket receive path must turn back into the original
+	ws, werr, wpan := codec.SendWS(v)
+	switch {
+	case wpan != "":
+		fail("ws-send-panic:"+kind, "websocket transport Send panicked: "+wpan)
+	case werr != nil:
+		fail("ws-send-error:"+short(werr), "websocket transport Send of a well-formed "+kind+" failed: "+werr.Error())
+	case len(ws) != 1:
+		fail("ws-send-frames:"+kind, fmt.Sprintf("websocket transport Send wrote %d text frames for one envelope", len(ws)))
+	default:
+		if td := codec.DecodeTyped(kind, ws[0]); td.Panic != "" || td.Err != nil {
+			fail("ws-sent-undecodable:"+kind, fmt.Sprintf("what the websocket transport sent does not decode: %v %s", td.Err, td.Panic))
+		} else if d := codec.Diff(want, codec.Canon(td.Env)); d != "" {
+			fail("ws-send-roundtrip:"+d, fmt.Sprintf("what the websocket transport sent decodes to something that differs from the original at %s", d))
+		}
+		rw := codec.ReceiveWS([][]byte{ws[0], b}, 3)
+		switch {
+		case rw.Panic != "":
+			fail("ws-transport-panic:"+rw.Site, "websocket transport Receive panicked on the library's own encoding: "+rw.Panic)
+		case len(rw.Envs) < 2:
+			fail("ws-transport-error:"+short(rw.Err), fmt.Sprintf("websocket transport Receive rejected the library's own encoding (message %d of 2): %v", len(rw.Envs)+1, rw.Err))
+		case len(rw.Envs) > 2:
+			fail("ws-transport-split:"+kind, "websocket transport Receive returned more envelopes than messages")
+		default:
+			for _, e := range rw.Envs {
+				if k := codec.KindOf(e); k != kind {
+					fail("ws-transport-kind:"+kind+"->"+k, fmt.Sprintf("websocket transport Receive classified a %s as %s", kind, k))
+				} else if d := codec.Diff(want, codec.Canon(e)); d != "" {
+					fail("ws-transport-roundtrip:"+d, fmt.Sprintf("envelope received through the websocket transport differs from the original at %s", d))
+				}
+			}
+		}
+	}
 	return
 }
 
